@@ -230,3 +230,25 @@ From PB Require Import Tables StdRates StdRatesProofs.
 Theorem C15_expects_reply_standard : forall r : req_type, req_expects_reply r = std_expects_reply r.
 Proof. exact standard_expects_reply. Qed.
 Print Assumptions C15_expects_reply_standard.
+
+(* ------------------------------------------------------------------------------------------ *)
+(* ORACLE SOUNDNESS, PARTIAL (Proofs/FdlOracleSound1-5.v; see Properties/C01.v for model_transcript and
+   Properties/C13.v for `app_sends_data`): on a transcript of the model, for ALL input histories, the only
+   rule of C15 the monitors can report is the liveness rule R15_no_reply_no_timeout (not covered yet).
+   Covered: R15_transmit_without_token, R15_transmit_while_outstanding, R15_round_robin (the executable
+   acceptor of C15_round_robin in mon_poll2, including R15_asked_after_all_declined), R15_reply_not_requested,
+   R15_reply_invalid, R15_timeout_not_requested, R15_await_without_request, R15_not_passed_after_all_declined,
+   R15_passed_before_all_declined, R15_cycle_after_hold_time.  This closes the gap noted in C15Proofs between
+   the Coq acceptors (which see the station state: fresh_visit) and the executable monitor (which detects a
+   pass-to-self from the transmitted token TS -> TS): they agree because witnessing the own pass does not
+   change NS (FdlOracleSound4.witness_own_pass_ns).
+   FULL: forall r, In (k, r) (monitor ..) -> rule_prop r <> PC15. *)
+From PB Require Import Params C05Proofs FdlOracle FdlOracleSound1 FdlOracleSound5.
+
+Theorem C15_oracle_sound_partial : forall (A : Type) (ops : app_ops A) (p : params),
+  apps_total A ops -> builder_valid p -> app_sends_data A ops ->
+  forall (apps : list A) (ins : list minput), ins_ok 0 ins ->
+  forall k r, In (k, r) (monitor p (length apps) (model_transcript A ops p apps ins)) ->
+  rule_prop r = PC15 -> r = R15_no_reply_no_timeout.
+Proof. exact c15_oracle_sound_partial. Qed.
+Print Assumptions C15_oracle_sound_partial.
